@@ -27,6 +27,7 @@ type Env struct {
 	post   bool // translating a postcondition: parameters denote entry values
 	cur    *State // under pre(): the real current state, in which local variables are read
 	freshBase string // allocation counter before the call / at function entry (for fresh())
+	freshTop  string // allocation counter after the call / at the return (fresh objects lie below it)
 	hint   *hintCtx // inside the by-block of a function clause: where `assert` obligations go
 }
 
@@ -38,6 +39,14 @@ type hintCtx struct {
 	site   string
 	n      *int
 	guards []string
+}
+
+// counterNow: the allocation counter of a state (every object allocated so far has a smaller oid)
+func counterNow(st *State) string {
+	if st.nobjBase != "" {
+		return app("+", st.nobjBase, fmt.Sprint(st.nobj))
+	}
+	return app("+", "fresh0", fmt.Sprint(st.nobj))
 }
 
 func (e *Env) child() *Env {
@@ -563,6 +572,16 @@ func (e *Env) field(n *CField) Val {
 		}
 		cfail("no field %s", n.Name)
 	}
+	if _, ok := t.Underlying().(*types.Interface); ok && xv.Sort == "Iface" {
+		// specification-only state of the object behind an interface value (e.g. the bytes a hash.Hash has seen)
+		if gf := e.w.ghostField(t, n.Name); gf != nil {
+			if e.st == nil {
+				cfail("heap read in pure context")
+			}
+			a := app("fld", app("iref", xv.S), fmt.Sprint(gf.Tag))
+			return e.mkHeap(e.w.heapLoad(e.st, a, gf.T), gf.T)
+		}
+	}
 	cfail("field %s of %s", n.Name, t)
 	return Val{}
 }
@@ -738,13 +757,42 @@ func (e *Env) call(n *CCall) Val {
 		if base == "" {
 			base = "fresh0"
 		}
+		top := e.freshTop
+		if top == "" && e.st != nil {
+			top = counterNow(e.st)
+		}
+		below := func(o string) string {
+			if top == "" {
+				return "true"
+			}
+			return app("<", o, top)
+		}
 		switch v.Sort {
 		case "Addr":
-			return boolV(sand(snot(app("=", v.S, "anil")), app(">=", app("oid", v.S), base)))
+			return boolV(sand(snot(app("=", v.S, "anil")), app(">=", app("oid", v.S), base), below(app("oid", v.S))))
 		case "Slice":
-			return boolV(app("=>", snot(app("=", app("sarr", v.S), "anil")), app(">=", app("oid", app("sarr", v.S)), base)))
+			return boolV(app("=>", snot(app("=", app("sarr", v.S), "anil")), sand(app(">=", app("oid", app("sarr", v.S)), base), below(app("oid", app("sarr", v.S))))))
+		case "Iface":
+			// an interface value over a newly allocated object
+			return boolV(sand(snot(app("=", v.S, "inil")), snot(app("=", app("iref", v.S), "anil")), app(">=", app("oid", app("iref", v.S)), base), below(app("oid", app("iref", v.S)))))
 		}
 		cfail("fresh() of %s", v.Sort)
+	case "allocated":
+		// allocated(x): x refers to an object that exists now (so anything allocated later is a different object)
+		v := e.tr(n.Args[0])
+		if e.st == nil {
+			cfail("allocated() in a pure context")
+		}
+		top := counterNow(e.st)
+		switch v.Sort {
+		case "Addr":
+			return boolV(app("<", app("oid", v.S), top))
+		case "Slice":
+			return boolV(app("<", app("oid", app("sarr", v.S)), top))
+		case "Iface":
+			return boolV(app("<", app("oid", app("iref", v.S)), top))
+		}
+		cfail("allocated() of %s", v.Sort)
 	case "ranged":
 		// ranged(): the slice a `for ... range` loop iterates over (evaluated once before the loop)
 		if e.inLoop == nil || e.st == nil || e.fr == nil {
@@ -827,6 +875,22 @@ func (e *Env) call(n *CCall) Val {
 			args = append(hargs, args...)
 		}
 		return e.mk(app("spec_"+n.Fun, args...), rt)
+	}
+	if (n.Fun == "as" || n.Fun == "is") && len(n.Args) == 2 {
+		// is(x, *T): the interface value x holds a *T;  as(x, *T): the pointer it holds (meaningful when is(x, *T))
+		v := e.tr(n.Args[0])
+		if v.Sort != "Iface" {
+			cfail("%s(): first argument is not an interface value", n.Fun)
+		}
+		u, isPtr := n.Args[1].(*CUnary)
+		if !isPtr || u.Op != "*" {
+			cfail("%s(x, *T): only pointer types are supported", n.Fun)
+		}
+		pt := types.NewPointer(e.w.resolveType(e.pkg, typeNameOf(u.X)))
+		if n.Fun == "is" {
+			return boolV(sand(snot(app("=", v.S, "inil")), app("=", app("tid", v.S), fmt.Sprint(e.w.typeID(pt)))))
+		}
+		return Val{S: app("iref", v.S), Sort: "Addr", T: pt}
 	}
 	if n.Fun == "mk" && len(n.Args) >= 1 {
 		// mk(Type, field values...): struct value
@@ -921,6 +985,10 @@ func typeNameOf(e CExpr) string {
 		return n.Name
 	case *CField:
 		return typeNameOf(n.X) + "." + n.Name
+	case *CUnary:
+		if n.Op == "*" {
+			return "*" + typeNameOf(n.X)
+		}
 	}
 	cfail("type name expected")
 	return ""
